@@ -126,6 +126,9 @@ def cs_ops_from_acts(acts):
             close()
             cur = {"op": "own"}
             ops.append(cur)
+        elif name == "BackgroundSync":
+            close()
+            ops.append({"op": "sync", "t": a["how"]})
         elif name == "Restart":
             close()
             cur = {"op": "restart", "fv": ""}
@@ -241,6 +244,8 @@ def schedule_from_rows(rows):
             op = {"op": r["op"], "t": r["t"], "r": r["rr"], "v": r["v"], "fv": r["fv"]}
             ops.append(op)
             pending = op if not r["completed"] else None
+        elif ev == "Sync":
+            ops.append({"op": "sync", "t": r["how"]})
         elif ev == "Restart":
             op = {"op": "restart", "fv": r["fv"]}
             ops.append(op)
@@ -310,8 +315,8 @@ def run(ctx):
     from concurrent.futures import ThreadPoolExecutor
     quick = ctx.tier == "quick"
     stats, nonvac = {}, {}
-    W = 2                                   # TLC workers per run; at most 4 runs at a time
-    pool = ThreadPoolExecutor(max_workers=4)
+    W = 2                                   # TLC workers per run, three runs at a time: at most 8 workers
+    pool = ThreadPoolExecutor(max_workers=3)
     rnd = random.Random(ctx.seed)
 
     def tlc(module, cfg, **kw):
@@ -323,14 +328,14 @@ def run(ctx):
     # exhaustive
     f_pv = tlc("C04_pv", core.cfg_variant(ctx, "C04_pv.cfg", "C04_pv_run.cfg",
                                           {"MaxCalls": 3 if quick else 4, "MaxCrashes": 1 if quick else 2}),
-               must_pass=True, label="pv", workers=4)
+               must_pass=True, label="pv", workers=3)
     crash_cfgs = [("r0_prop", {"MaxRound": 0, "MaxCrashes": 2 if quick else 3, "Proposer": "{0}"}),
                   ("r0_noprop", {"MaxRound": 0, "MaxCrashes": 2 if quick else 3, "Proposer": "{}"})]
     if not quick:
         crash_cfgs += [("r1_prop1", {"MaxRound": 1, "MaxCrashes": 1, "Proposer": "{1}"}),
                        ("r1_noprop", {"MaxRound": 1, "MaxCrashes": 1, "Proposer": "{}"})]
     f_crash = [tlc("C04_crash", core.cfg_variant(ctx, "C04_crash.cfg", "C04_crash_%s.cfg" % tag, consts),
-                   must_pass=True, heap="6g", label="crash_" + tag, workers=4) for tag, consts in crash_cfgs]
+                   must_pass=True, heap="6g", label="crash_" + tag, workers=3) for tag, consts in crash_cfgs]
     # graphs (act-augmented, no VIEW)
     dot_pv = os.path.join(ctx.work, "pv.dot")
     f_pvg = tlc("C04_pv", core.cfg_variant(ctx, "C04_pv.cfg", "C04_pv_graph.cfg", {"MaxCalls": 2, "MaxCrashes": 1 if quick else 2},
